@@ -648,6 +648,64 @@ Qed.
 Lemma inv_parsed : forall l ts t, Derives l ts t -> inv (parse_input_node t) = true.
 Proof. intros. apply inv_pin. Qed.
 
+(* in-place edits of a sub-object keep it too *)
+Lemma inv_hs_at : forall path f h h',
+  (forall c, is_cell_unit c = true -> f c = None) ->
+  (forall c c' s, inv c = true -> f c = Some (c', s) -> inv c' = true) ->
+  inv h = true -> hs_at path f h = Some h' -> inv h' = true.
+Proof.
+  induction path as [|d rest IH]; intros f h h' Hcu Hf Hi H; [discriminate H|].
+  destruct h as [c p n|l nd|op l r nd]; cbn [hs_at] in H; [discriminate H| |].
+  - destruct d; [discriminate H|].
+    destruct (is_cell_unit l) eqn:El.
+    + (* the cell under its complement cannot be edited *)
+      destruct rest as [|d' rest'].
+      * rewrite (Hcu l El) in H. discriminate H.
+      * destruct l as [[] ? ?| |]; try discriminate El. cbn [hs_at] in H. discriminate H.
+    + rewrite inv_compl_nonunit in Hi by exact El.
+      destruct rest as [|d' rest'].
+      * destruct (f l) as [[l' same]|] eqn:E; [|discriminate H]. inversion H; subst; clear H.
+        pose proof (Hf _ _ _ Hi E) as Hl'.
+        rewrite inv_compl_nonunit by (apply inv_not_cell_unit; exact Hl'). exact Hl'.
+      * destruct (hs_at (d' :: rest') f l) as [l'|] eqn:E; [|discriminate H]. inversion H; subst; clear H.
+        pose proof (IH f l l' Hcu Hf Hi E) as Hl'.
+        rewrite inv_compl_nonunit by (apply inv_not_cell_unit; exact Hl'). exact Hl'.
+  - rewrite inv_bin in Hi. apply andb_true_iff in Hi. destruct Hi as [H1 H2].
+    destruct d; destruct rest as [|d' rest'].
+    + destruct (f r) as [[r' same]|] eqn:E; [|discriminate H]. inversion H; subst; clear H.
+      rewrite inv_bin, H1, (Hf _ _ _ H2 E). reflexivity.
+    + destruct (hs_at (d' :: rest') f r) as [r'|] eqn:E; [|discriminate H]. inversion H; subst; clear H.
+      rewrite inv_bin, H1, (IH f r r' Hcu Hf H2 E). reflexivity.
+    + destruct (f l) as [[l' same]|] eqn:E; [|discriminate H]. inversion H; subst; clear H.
+      rewrite inv_bin, H2, (Hf _ _ _ H1 E). reflexivity.
+    + destruct (hs_at (d' :: rest') f l) as [l'|] eqn:E; [|discriminate H]. inversion H; subst; clear H.
+      rewrite inv_bin, H2, (IH f l l' Hcu Hf H1 E). reflexivity.
+Qed.
+
+Lemma at_apply_cell : forall k b c, is_cell_unit c = true -> at_apply k b c = None.
+Proof. intros k b [[] p n| |] H; try discriminate H. destruct k; reflexivity. Qed.
+
+Lemma at_apply_inv : forall k b c c' s, inv b = true -> inv c = true -> at_apply k b c = Some (c', s) -> inv c' = true.
+Proof.
+  intros k b c c' s Hb Hc H. destruct k; cbn [at_apply] in H.
+  - destruct (hs_set_op c op) as [h|] eqn:E; inversion H; subst. eapply inv_set_op; eauto.
+  - destruct (hs_set_left c b) as [h|] eqn:E; inversion H; subst. eapply (inv_set_left c b); eauto.
+  - destruct (hs_set_right c b) as [h|] eqn:E; inversion H; subst. eapply (inv_set_right c b); eauto.
+  - destruct (is_cell_unit0 c); [discriminate H|]. inversion H as [E].
+    change c' with (fst (c', s)). rewrite <- E. apply inv_iop; assumption.
+Qed.
+
+Lemma inv_at : forall path k a b h, inv a = true -> inv b = true ->
+  hs_at path (at_apply k b) a = Some h -> inv h = true.
+Proof.
+  intros path k a b h Ha Hb H.
+  apply (inv_hs_at path (at_apply k b) a h).
+  - apply at_apply_cell.
+  - intros c c' s Hc E. exact (at_apply_inv k b c c' s Hb Hc E).
+  - exact Ha.
+  - exact H.
+Qed.
+
 (* the state after a write satisfies the invariant again *)
 Lemma linked_attached_inv : forall h, linked_ok h = true -> attached h = true -> inv h = true.
 Proof.
@@ -683,7 +741,9 @@ Inductive reachable : hs -> Prop :=
 | R_set_left : forall a b h, reachable a -> reachable b -> hs_set_left a b = Some h -> reachable h
 | R_set_right : forall a b h, reachable a -> reachable b -> hs_set_right a b = Some h -> reachable h
 | R_set_op : forall a op h, reachable a -> hs_set_op a op = Some h -> reachable h   (* .operator = INTERSECTION / UNION *)
-| R_written : forall a, reachable a -> reachable (update_values a).   (* written once, then used again *)
+| R_written : forall a, reachable a -> reachable (update_values a)    (* written once, then used again *)
+| R_at : forall path k a b h, reachable a -> reachable b ->           (* a.left.operator = ..., a.right.left = b, a.left &= b *)
+    hs_at path (at_apply k b) a = Some h -> reachable h.
 
 Lemma reachable_inv : forall h, reachable h -> inv h = true.
 Proof.
@@ -700,6 +760,7 @@ Proof.
   - eapply (inv_set_right a b); eauto.
   - eapply inv_set_op; eauto.
   - apply ensure_inv; assumption.
+  - eapply (inv_at path k a b); eauto.
 Qed.
 
 Theorem write_reachable : forall h, reachable h ->
@@ -990,6 +1051,24 @@ Proof.
   - destruct st as [|[a fa] r]; simpl in H; try discriminate. inversion H; subst.
     inversion Hst as [|? ? Ha' Hr]; subst.
     constructor; [apply ensure_inv; assumption | exact Hr].
+  - (* in-place edit of a sub-object *)
+    destruct k.
+    + destruct st as [|[a fa] r]; simpl in H; try discriminate.
+      destruct (hs_at path (at_apply (AtSetOp op) a) a) as [h|] eqn:E; inversion H; subst.
+      inversion Hst as [|? ? Ha' Hr]; subst.
+      constructor; [|exact Hr]. eapply (inv_at path (AtSetOp op) a a); eauto.
+    + destruct st as [|[b fb] [|[a fa] r]]; simpl in H; try discriminate.
+      destruct (hs_at path (at_apply AtSetL b) a) as [h|] eqn:E; inversion H; subst.
+      inversion Hst as [|? ? Hb' Hr]; subst. inversion Hr as [|? ? Ha' Hr']; subst.
+      constructor; [|exact Hr']. eapply (inv_at path AtSetL a b); eauto.
+    + destruct st as [|[b fb] [|[a fa] r]]; simpl in H; try discriminate.
+      destruct (hs_at path (at_apply AtSetR b) a) as [h|] eqn:E; inversion H; subst.
+      inversion Hst as [|? ? Hb' Hr]; subst. inversion Hr as [|? ? Ha' Hr']; subst.
+      constructor; [|exact Hr']. eapply (inv_at path AtSetR a b); eauto.
+    + destruct st as [|[b fb] [|[a fa] r]]; simpl in H; try discriminate.
+      destruct (hs_at path (at_apply (AtIop op) b) a) as [h|] eqn:E; inversion H; subst.
+      inversion Hst as [|? ? Hb' Hr]; subst. inversion Hr as [|? ? Ha' Hr']; subst.
+      constructor; [|exact Hr']. eapply (inv_at path (AtIop op) a b); eauto.
 Qed.
 
 Lemma exec_inv : forall base p st st',
@@ -1771,4 +1850,29 @@ Proof.
   destruct (grammar_derives t2 W2 ltac:(rewrite R2; reflexivity) S2 H2) as (g2 & A2 & D2 & _).
   rewrite R1 in D1. rewrite R2 in D2. rewrite E in D1. cbn [lvl_of String.eqb Ascii.eqb Bool.eqb] in D1, D2.
   rewrite A1, A2. f_equal. eapply derives_unique; eauto.
+Qed.
+
+(* histories: built from scratch, written (the syntax nodes now exist), edited in place below the root, written again.
+   (-s1 & +s2) & -s3, written, geometry.left.operator = UNION:  the text is (-1 : 2) -3;
+   -s1 & ~c5, written, geometry.right.left = +s2 | -s3:         the text is -1 #(2 : -3) *)
+Lemma ex_history :
+  (exists h, hs_at [false] (at_apply (AtSetOp OUnion) (surf_pos 0))
+               (update_values (hs_and (hs_and (surf_neg 1) (surf_pos 2)) (surf_neg 3))) = Some h /\
+             reachable h /\
+             sem_hs h = BAnd (BOr (BSurf false 1) (BSurf true 2)) (BSurf false 3) /\
+             written_tokens h = [TLParen; TLeaf false 1; TColon; TLeaf true 2; TRParen; TLeaf false 3]%Z) /\
+  (exists h, hs_at [true] (at_apply AtSetL (hs_or (surf_pos 2) (surf_neg 3)))
+               (update_values (hs_and (surf_neg 1) (cell_compl 5))) = Some h /\
+             reachable h /\
+             written_tokens h = [TLeaf false 1; THash; TLParen; TLeaf true 2; TColon; TLeaf false 3; TRParen]%Z).
+Proof.
+  split; eexists; (split; [vm_compute; reflexivity|]); (split; [|vm_compute; repeat split]).
+  - apply (R_at [false] (AtSetOp OUnion)
+             (update_values (hs_and (hs_and (surf_neg 1) (surf_pos 2)) (surf_neg 3))) (surf_pos 0));
+      [| apply R_surf | vm_compute; reflexivity].
+    apply R_written. apply R_and; [apply R_and|]; apply R_surf.
+  - apply (R_at [true] AtSetL (update_values (hs_and (surf_neg 1) (cell_compl 5))) (hs_or (surf_pos 2) (surf_neg 3)));
+      [| | vm_compute; reflexivity].
+    + apply R_written. apply R_and; [apply R_surf | apply R_cell].
+    + apply R_or; apply R_surf.
 Qed.
